@@ -62,9 +62,12 @@ def prepare(tier):  # pylint: disable=unused-argument
 
 def gen_case(rng, tier):
     maxlen = 5 if tier == "quick" else 6
+    big = rng.random() < 0.06
     uni = []
     while len(uni) < rng.randint(3, 8):
         n = rng.choice([1, 2, 2, 3, 3, 3, 4, 4, 4, 5, 5, 6][: 9 + (maxlen - 4) * 1 + (1 if maxlen > 5 else 0)])
+        if big:
+            n = rng.choice([5, 6, 6, 7, 7, 8])
         r = rng.random()
         if r < 0.15:
             p = list(range(n))
